@@ -106,6 +106,8 @@ TRACE_TAGS = [
     "dev:foster-flag-reset",      # li/dd/dt/option start tag under foster parenting that first
                                   # closes an element (html5lib then loses its foster flag)
     "dev:table-text-doctype",     # DOCTYPE token ends "in table text" (html5lib: stays, no flush)
+    "dev:aaa-bookmark",           # AAA: the clone of the formatting element is inserted in the
+                                  # AFE before an existing entry (html5lib: one entry later)
     "dev:button-in-table",        # <button> with a button in scope, handled through the
                                   # "in table" anything-else branch (html5lib drops the token)
     "dev:br-end-frameset-ok",     # </br> while frameset-ok is still "ok" (html5lib keeps it)
@@ -121,7 +123,7 @@ COMPAT_SWITCHES = frozenset([
     "any-other-end-tag-ns", "after-body-ws", "frameset-text",
     "colgroup-text", "pre-lf", "table-in-table-fragment", "reset-mode", "cell-caption-ws",
     "foster-flag-reset", "table-text-current-node", "br-end-frameset-ok",
-    "button-in-table", "table-text-doctype", "cdata-nul",
+    "button-in-table", "table-text-doctype", "cdata-nul", "aaa-bookmark",
 ])
 # cdata-nul: html5lib's tokenizer turns NUL inside a CDATA section into U+FFFD; the token
 #   interface does not tell the tree builder whether a NUL came from a CDATA section, so the
@@ -1232,7 +1234,15 @@ class _Parser(object):
             fe_afe_idx = self.index_in_afe(fe)
             del afe[fe_afe_idx]
             if fe_afe_idx < bookmark:
-                bookmark -= 1
+                if bookmark - 1 < len(afe):
+                    # html5lib computes the bookmark as a list index before it removes the
+                    # formatting element and does not correct it: the clone lands one entry
+                    # too far down the list (visible only when an entry follows)
+                    self.trace.add("dev:aaa-bookmark")
+                    if "aaa-bookmark" not in self.compat:
+                        bookmark -= 1
+                else:
+                    bookmark -= 1
             afe.insert(bookmark, new)
             # 20
             self.remove_from_stack(fe)
@@ -1710,6 +1720,11 @@ class _Parser(object):
             while True:
                 node = stack[i]
                 if self.is_html(node, "li"):
+                    if "special-extra" in self.compat and not self.in_list_item_scope("li"):
+                        # html5lib closes through endTagListItem, which tests the scope; with
+                        # its shorter special list the walk can pass a scoping element
+                        self.err()
+                        break
                     self.generate_implied_end_tags(except_for="li")
                     if not self.is_html(stack[-1], "li"):
                         self.err()
@@ -1731,6 +1746,9 @@ class _Parser(object):
             while True:
                 node = stack[i]
                 if self.is_html(node, "dd"):
+                    if "special-extra" in self.compat and not self.in_scope("dd"):
+                        self.err()
+                        break
                     self.generate_implied_end_tags(except_for="dd")
                     if not self.is_html(stack[-1], "dd"):
                         self.err()
@@ -1738,6 +1756,9 @@ class _Parser(object):
                     self.h5l_foster_flag_reset()
                     break
                 if self.is_html(node, "dt"):
+                    if "special-extra" in self.compat and not self.in_scope("dt"):
+                        self.err()
+                        break
                     self.generate_implied_end_tags(except_for="dt")
                     if not self.is_html(stack[-1], "dt"):
                         self.err()
@@ -2112,7 +2133,10 @@ class _Parser(object):
                 self.original_mode = self.mode
                 self.set_mode("in table text")
                 return REPROCESS
-            if token[2] == "ws" and not self.run_has_nonws and self.afe_needs_reconstruct():
+            if ((token[2] == "ws" and not self.run_has_nonws and self.afe_needs_reconstruct())
+                    or cur.ns != HTML_NS):
+                # (current node foreign = an integration point: html5lib keeps the characters
+                # pending while the foreign-content rules handle comments / end tags)
                 self.trace.add("dev:table-text-current-node")
             if "table-text-current-node" in self.compat:
                 self.pending_table_chars = []
@@ -2264,6 +2288,11 @@ class _Parser(object):
             if "table-text-doctype" in self.compat:
                 self.err()
                 return None
+        self.flush_table_text()
+        return REPROCESS
+
+    def flush_table_text(self):
+        """the 'anything else' entry of "in table text" up to (not including) the reprocessing"""
         pending = self.pending_table_chars
         self.pending_table_chars = []
         nonws = False
@@ -2280,7 +2309,6 @@ class _Parser(object):
             self.trace.add("table-text-ws")
             self.insert_text("".join(t[1] for t in pending))
         self.set_mode(self.original_mode)
-        return REPROCESS
 
     # ------------------------------------------------------------------ in caption
     def m_in_caption(self, token):
@@ -2931,6 +2959,12 @@ class _Parser(object):
                 if i == 0:
                     return None
                 if _ascii_lower(node.name) == name:
+                    if self.mode == "in table text":
+                        # html5lib ("XXX this isn't in the spec but it seems necessary"):
+                        # pending table text is flushed before the elements are popped.
+                        # Unreachable without the table-text-current-node switch.
+                        self.flush_table_text()
+                        i = self.index_in_stack(node)
                     del stack[i:]
                     return None
                 i -= 1
